@@ -553,6 +553,34 @@ fn load_corpus() -> Vec<Case> {
     v
 }
 
+/// `nb` literal-only blocks, then a block that starts with matches at offset = `window_size()` = `w` (a value the
+/// one-byte window descriptor may not be able to express exactly)
+pub fn window_edge_case(rng: &mut Rng, w: u64) -> Case {
+    let nb = (w as usize).div_ceil(BLOCK) + 1;
+    let mut d = rng.bytes(nb * BLOCK);
+    let mut parse = vec![];
+    for k in 0..40usize {
+        let ll = if k == 0 { 0 } else { 2 };
+        for _ in 0..ll {
+            d.push(rng.next() as u8);
+        }
+        let off = w as usize - (k % 3);
+        let ml = 5 + k % 7;
+        for _ in 0..ml {
+            let c = d[d.len() - off];
+            d.push(c);
+        }
+        parse.push((ll, off, ml));
+    }
+    d.extend(rng.bytes(2));
+    let mut p = plan(Mode::LiteralsOnly);
+    for i in 0..nb {
+        p.fixed.insert(i, vec![]);
+    }
+    p.fixed.insert(nb, parse);
+    Case { label: format!("matches at offset = window_size() = {} (not representable) at the start of a block", w), w, spaces: vec![BLOCK], plan: p, data: d, lvl: Lvl::F, frags: vec![] }
+}
+
 pub fn run(opts: &Opts) -> Run {
     let mut run = Run::new("matcher_script");
     let mut rng = Rng::new(opts.seed ^ 0xc16);
@@ -714,29 +742,7 @@ pub fn run(opts: &Opts) -> Run {
     // windows that the window descriptor cannot represent exactly, and a match at (nearly) the full window right at
     // the start of a block: the declared window must not be smaller than what the matcher uses
     for &w in &[131_073u64, 200_000, 150_000, 262_143, 229_377, 300_000] {
-        let nb = (w as usize).div_ceil(BLOCK) + 1;
-        let mut d = rng.bytes(nb * BLOCK);
-        let mut parse = vec![];
-        for k in 0..40usize {
-            let ll = if k == 0 { 0 } else { 2 };
-            for _ in 0..ll {
-                d.push(rng.next() as u8);
-            }
-            let off = w as usize - (k % 3);
-            let ml = 5 + k % 7;
-            for _ in 0..ml {
-                let c = d[d.len() - off];
-                d.push(c);
-            }
-            parse.push((ll, off, ml));
-        }
-        d.extend(rng.bytes(2));
-        let mut p = plan(Mode::LiteralsOnly);
-        for i in 0..nb {
-            p.fixed.insert(i, vec![]);
-        }
-        p.fixed.insert(nb, parse);
-        cases.push(Case { label: format!("matches at offset = window_size() = {} (not representable) at the start of a block", w), w, spaces: vec![BLOCK], plan: p, data: d, lvl: Lvl::F, frags: vec![] });
+        cases.push(window_edge_case(&mut rng, w));
     }
     // a whole block that is ONE match (match length 131072, the last row of the match length code table)
     {
